@@ -107,11 +107,14 @@ func (x *X) schematicFor(fn *ssa.Function) *Contract {
 		add("ensures", "outcome-range", []string{"C05", "C11"}, "r0 == predFalse || r0 == predTrue || r0 == predUnknown")
 	}
 	if recv != "" {
-		add("ensures", "E3", []string{"C08"}, "!old("+recv+".verbose) ==> !errIs(r1, ErrVerbose)")
+		add("ensures", "E3", []string{"C08", "C10"}, "!old("+recv+".verbose) ==> !errIs(r1, ErrVerbose)")
 		c.Modifies = append(c.Modifies, recv+".lastGeneratedObjectID")
 	}
 	if found != "" {
 		c.Modifies = append(c.Modifies, found+".list")
+		// a result list grows in its own backing array or moves to a fresh
+		// one; it never adopts an array that belongs to the document
+		add("ensures", "E7-list-owned", []string{"C05", "C09", "C19"}, found+" != nil ==> sameBase("+found+".list, old("+found+".list)) || freshBase("+found+".list)")
 	}
 	c.HasModifies = true
 	return c
